@@ -7,8 +7,10 @@
 // Trusted part of this file: the TracePos shim (verbatim from slider.rs, plus `From<TracePos> for usize`
 // mirroring trace_pos.rs `value.0 as Self`); DataKeeper reduced to a ghost-visible result-trace length with
 // `result_trace_next_pos` as a stub carrying the contract proved in par_builder.rs; `Default for SubTraceLoreCtor`
-// (the real one is `#[derive(Default)]`, i.e. field-wise defaults, which Verus gives no spec for);
-// external_body stubs for the two queue methods Verus rejects (`drain().map().collect()`, `iter_mut()`).
+// (the real one is `#[derive(Default)]`, i.e. field-wise defaults, which Verus gives no spec for); `PartialEq` of the
+// field-less CtorState (derived in the source) as structural equality.
+// Not covered: SubTraceLoreCtorQueue::transform_to_lore (`drain(..).map(..).collect()`: `Vec::drain` has no Verus
+// specification) -- it is not lifted and has no stub here, nothing in this unit calls it.
 use vstd::prelude::*;
 use vstd::std_specs::iter::IteratorSpec;     // `remaining()` of the ghost iterator in the `iter_mut()` loop invariant
 verus! {
@@ -325,6 +327,7 @@ impl SubTraceLoreCtorQueue {
         ensures r == self.started()
 //@ end
 
+// (the rewrite only names the ghost iterator of the `iter_mut()` loop so that the invariant can mention it)
 //@ lift crates/air-lib/trace-handler/src/state_automata/fold_fsm/lore_ctor_queue.rs :: impl SubTraceLoreCtorQueue :: fn finish
 //@ props C10 C01
 //@ rewrite 1 "for ctor in self.queue.iter_mut()" => "for ctor in it: self.queue.iter_mut()"
